@@ -62,6 +62,12 @@ def tree_scopes(tier, updates=1, ro=1, fill=1, growth=True, logs=True, rnd=True)
             S("tree", type="T8u8u8", mode="bfs", slots=0, cap=0, max_slots=2, keys=keys(3), updates=0, ro=ro, fill=fill),
             S("tree", type="T32u8u8", mode="bfs", slots=0, cap=0, max_slots=2, keys=keys(3), updates=0, ro=ro, fill=fill),
         ]
+    # every height-balanced shape with at most 10 nodes x every single insertion (into every gap) / removal
+    # (of every key) / lookup, instrumented keys
+    q += [
+        S("tree", type="T8logu8", mode="shapes", nodes=10, slots=12, cap=12, keys=keys(24, 1), fill=0),
+        S("tree", type="T32logu8", mode="shapes", nodes=10, slots=12, cap=12, keys=keys(24, 1), fill=0),
+    ]
     if logs:
         q += [
             S("tree", type="T32logu8", mode="bfs", slots=4, cap=4, keys=keys(5, 1), updates=0, ro=ro, fill=0),
@@ -86,6 +92,8 @@ def tree_scopes(tier, updates=1, ro=1, fill=1, growth=True, logs=True, rnd=True)
         S("tree", type="T32u8u8", mode="bfs", slots=6, cap=6, keys=keys(6), updates=0, ro=0, fill=0, timeout=3000),
         S("tree", type="T8logu8", mode="bfs", slots=5, cap=5, keys=keys(6, 1), updates=0, ro=0, fill=0),
         S("tree", type="T32logu8", mode="bfs", slots=5, cap=5, keys=keys(6, 1), updates=0, ro=0, fill=0),
+        S("tree", type="T8logu8", mode="shapes", nodes=14, slots=16, cap=16, keys=keys(32, 1), fill=0, timeout=3000),
+        S("tree", type="T32u64u64", mode="shapes", nodes=13, slots=14, cap=14, keys=keys(30, 1), fill=0, timeout=3000),
     ]
     if growth:
         t += [
